@@ -362,6 +362,14 @@ func c03(x *mon.Ctx) {
 				t2.SerialNumber = base.PKI.TcbSign.Cert.SerialNumber
 				selfs := world.Issue(t2, nil, world.NewKey())
 				resigned("signer-self-signed-same-serial", selfs, base.PKI.Root, "reject")
+				// a whole look-alike hierarchy: names, serials, subject / authority key identifiers and validity periods are the
+				// genuine ones, only the keys differ (an identifier is whatever the certificate's maker wrote into it)
+				lk := world.LookalikePKI(base.PKI, world.SgxExtension(base.P))
+				resigned("signer-lookalike-all-identifiers", lk.TcbSign, lk.Root, "reject")
+				resigned("signer-lookalike-all-identifiers-own-root-in-header", lk.TcbSign, base.PKI.Root, "reject")
+				t3 := world.TcbSignTemplate(world.Far)
+				t3.SubjectKeyId = base.PKI.TcbSign.Cert.SubjectKeyId
+				resigned("signer-self-signed-same-key-id", world.Issue(t3, nil, world.NewKey()), base.PKI.Root, "reject")
 			}
 			// the same forgeries with a signer certificate that is outside its validity period at the verification
 			// times (a time error from path validation must not be mistaken for "somebody else checks validity")
